@@ -251,6 +251,44 @@ theorem bare_selected_inert (r : SOuter ν) (a : Attr) (hs : selected r a = true
     (pre post : List Attr) : extract r (pre ++ a :: post) = extract r (pre ++ post) :=
   inert_anywhere r a (bare_or_empty_atoms r a h) (by simp [forwardedBy, hs]) pre post
 
+/-! ### several attributes are one list -/
+
+/-- the items of the selected attributes, concatenated in source order -/
+def selItems (r : SOuter ν) (attrs : List Attr) : List NestedMeta :=
+  attrs.flatMap (fun a => if selected r a then (match attrItems a with
+    | .items xs => xs
+    | .err _ => []) else [])
+
+/-- every selected attribute has a body that is a list of items (bare and empty ones included) -/
+def AllParse (r : SOuter ν) (attrs : List Attr) : Prop :=
+  ∀ a ∈ attrs, selected r a = true → ∃ xs, attrItems a = .items xs
+
+theorem atoms_of_allParse (r : SOuter ν) (attrs : List Attr) (h : AllParse r attrs) :
+    atoms r attrs = (selItems r attrs).map .item := by
+  induction attrs with
+  | nil => rfl
+  | cons a rest ih =>
+      have hr : AllParse r rest := fun b hb => h b (List.mem_cons_of_mem _ hb)
+      simp only [atoms, selItems, List.flatMap_cons, List.map_append] at ih ⊢
+      rw [ih hr]
+      congr 1
+      unfold atomsOf
+      by_cases hs : selected r a = true
+      · obtain ⟨xs, hx⟩ := h a List.mem_cons_self hs
+        simp [hs, hx]
+      · have : selected r a = false := by cases hh : selected r a <;> simp_all
+        simp [this]
+
+/-- **Several declared attributes on one element are a single item list**: the parser state after
+    the attribute walk is that of the struct parser's item loop (`FieldsGen::core_loop`, the loop of
+    C01 / C02) run once over the concatenation of their items. -/
+theorem walk_is_one_list (r : SOuter ν) (attrs : List Attr) (h : AllParse r attrs) :
+    extract r attrs = (match coreLoop r.fields {} (selItems r attrs) with
+      | .ok p => attrsValue r p (attrs.filter (forwardedBy r))
+      | .error m => .error m) := by
+  rw [extract_spec, extractSpec, atoms_of_allParse r attrs h, runAtoms_items]
+  cases coreLoop r.fields {} (selItems r attrs) <;> rfl
+
 /-! ### non-vacuity -/
 
 private def mkPath (name : String) : Path := { global := false, segs := [name], plain := true, toks := name, span := ⟨0, 0⟩ }
